@@ -268,7 +268,7 @@ def FlatOk : Obj → Prop
   | .null => True
   | .nilArr => True
   | .bool _ => True
-  | .int i => RegTok (intToDec i) (.int i)
+  | .int i => RegTok (intDec i) (.int i)
   | .real t => RegTok (realToken t) (.real (realToken t))
   | .name n => AllBytes n ∧ n.length ≤ Gen.content_maxNameBytes
   | .str s => s.length < Gen.content_maxStringBytes
